@@ -9,11 +9,12 @@ package ledger
 // round 1 are forgotten as well). With the default MaxAcctLookback (4) the tracker DB round
 // is 1 right after block 5 was written, until the next flush.
 //
-// Uses only upstream test helpers (simple_test.go, ledger_test.go). Fails on the unfixed
+// Uses only upstream test helpers (simple_test.go). Fails on the unfixed
 // tree, passes with `for old := baseRound; old <= dbRound && len(roundData) > 0; old++`.
 
 import (
 	"testing"
+	"time"
 
 	"github.com/stretchr/testify/require"
 
@@ -43,14 +44,12 @@ func TestReproC11TxTailReloadAtDbRound1(t *testing.T) {
 		eval = nextBlock(t, l)
 		endBlock(t, l, eval)
 	}
-	// trackers persist up to Latest - MaxAcctLookback = 1
+	// the node's own background flush persists trackers up to Latest - MaxAcctLookback = 1
+	require.Eventually(t, func() bool { return l.LatestTrackerCommitted() == basics.Round(1) }, 30*time.Second, 10*time.Millisecond)
 	l.trackers.waitAccountsWriting()
-	triggerTrackerFlush(t, l)
-	require.Equal(t, basics.Round(1), l.LatestTrackerCommitted())
 
 	stx := pay.SignedTxn()
 	txl := ledgercore.Txlease{Sender: stx.Txn.Sender}
-	before := micros(t, l, addrs[1])
 
 	// sanity: before the restart the duplicate is detected
 	err := l.CheckDup(proto, 6, stx.Txn.FirstValid, stx.Txn.LastValid, stx.ID(), txl)
@@ -65,8 +64,8 @@ func TestReproC11TxTailReloadAtDbRound1(t *testing.T) {
 	// (not reached on the unfixed tree) the same transaction must not enter block 6
 	eval = nextBlock(t, l)
 	txn(t, l, eval, &pay, "transaction already in ledger")
-	endBlock(t, l, eval)
-	require.Equal(t, before, micros(t, l, addrs[1]))
+	vb := endBlock(t, l, eval)
+	require.Empty(t, vb.Block().Payset)
 }
 
 // Same history, but shows the consequence instead of stopping at CheckDup: the payment is
@@ -85,9 +84,9 @@ func TestReproC11TxTailReloadAtDbRound1DoubleSpend(t *testing.T) {
 		eval = nextBlock(t, l)
 		endBlock(t, l, eval)
 	}
+	// the node's own background flush persists trackers up to Latest - MaxAcctLookback = 1
+	require.Eventually(t, func() bool { return l.LatestTrackerCommitted() == basics.Round(1) }, 30*time.Second, 10*time.Millisecond)
 	l.trackers.waitAccountsWriting()
-	triggerTrackerFlush(t, l)
-	require.Equal(t, basics.Round(1), l.LatestTrackerCommitted())
 	require.NoError(t, l.reloadLedger())
 
 	eval = nextBlock(t, l)
